@@ -1,0 +1,110 @@
+//! Verification hooks (feature `verif`): the per-stream notification `Connection` task with its channels,
+//! constructed directly so that a harness can drive it poll by poll.
+
+use super::{
+    connection::Connection,
+    handle::{NotificationEventHandle, NotificationSink},
+    types::InnerNotificationEvent,
+};
+use crate::{substream::Substream, PeerId};
+
+use bytes::BytesMut;
+use futures::future::BoxFuture;
+use tokio::sync::{
+    mpsc::{channel, Receiver},
+    oneshot,
+};
+
+use std::task::{Context, Poll};
+
+/// The spawned `Connection::start()` task of one open notification stream, plus the far ends of its channels.
+pub struct Kernel {
+    task: Option<BoxFuture<'static, ()>>,
+    /// What the user's `NotificationHandle` reads notifications from.
+    notif_rx: Receiver<(PeerId, BytesMut)>,
+    /// Events towards the user's handle (`NotificationStreamClosed`).
+    event_rx: Receiver<InnerNotificationEvent>,
+    /// "connection closed" reports towards `NotificationProtocol`.
+    closed_rx: Receiver<PeerId>,
+    /// `NotificationProtocol`'s means to shut the stream down.
+    shutdown: Option<oneshot::Sender<()>>,
+}
+
+/// Build the task exactly as `NotificationProtocol` does when both substreams are open.
+pub fn new_kernel(
+    peer: PeerId,
+    inbound: Substream,
+    outbound: Substream,
+    sync_channel_size: usize,
+    async_channel_size: usize,
+    notif_channel_size: usize,
+) -> (Kernel, NotificationSink) {
+    let (event_tx, event_rx) = channel(8);
+    let (closed_tx, closed_rx) = channel(8);
+    let (notif_tx, notif_rx) = channel(notif_channel_size);
+    let (async_tx, async_rx) = channel(async_channel_size);
+    let (sync_tx, sync_rx) = channel(sync_channel_size);
+    let sink = NotificationSink::new(peer, sync_tx, async_tx);
+    let (connection, shutdown) = Connection::new(
+        peer,
+        inbound,
+        outbound,
+        NotificationEventHandle::new(event_tx),
+        closed_tx,
+        notif_tx,
+        async_rx,
+        sync_rx,
+    );
+    let task: BoxFuture<'static, ()> = Box::pin(async move {
+        connection.start().await;
+    });
+    (Kernel { task: Some(task), notif_rx, event_rx, closed_rx, shutdown: Some(shutdown) }, sink)
+}
+
+impl Kernel {
+    /// Poll the task once; `true` when it has finished (it is dropped then, like a finished spawned task).
+    pub fn poll_task(&mut self, cx: &mut Context<'_>) -> bool {
+        let Some(task) = self.task.as_mut() else { return true };
+        match task.as_mut().poll(cx) {
+            Poll::Ready(()) => {
+                self.task = None;
+                true
+            }
+            Poll::Pending => false,
+        }
+    }
+
+    pub fn finished(&self) -> bool {
+        self.task.is_none()
+    }
+
+    /// Next notification delivered to the user, if any.
+    pub fn user_receive(&mut self) -> Option<(PeerId, Vec<u8>)> {
+        self.notif_rx.try_recv().ok().map(|(peer, bytes)| (peer, bytes.to_vec()))
+    }
+
+    /// Whether the user's handle was told that the stream closed.
+    pub fn user_closed_event(&mut self) -> Option<PeerId> {
+        match self.event_rx.try_recv() {
+            Ok(InnerNotificationEvent::NotificationStreamClosed { peer }) => Some(peer),
+            _ => None,
+        }
+    }
+
+    /// Whether `NotificationProtocol` was told that the connection closed.
+    pub fn protocol_closed_report(&mut self) -> Option<PeerId> {
+        self.closed_rx.try_recv().ok()
+    }
+
+    /// `NotificationProtocol` asks the task to shut down.
+    pub fn request_shutdown(&mut self) {
+        if let Some(tx) = self.shutdown.take() {
+            let _ = tx.send(());
+        }
+    }
+
+    /// The user stops reading notifications (drops its handle).
+    pub fn user_stops_reading(&mut self) {
+        self.notif_rx.close();
+    }
+}
